@@ -287,6 +287,36 @@ def run(M, rep, tier, only=None):
                       site=badw[1].site if badw is not None and badw[2] == k else fi.file,
                       detail=describe_path(badw[0]) if badw is not None and badw[2] == k else None)
 
+    # ---- R12: the automatic stamp is the current time and nothing else (not the later of now and what is stored, not a
+    # rounded or shifted value): with no time given, what force_updated_at / force_created_at write derives from the clock only,
+    # on a path that reads nothing from the file; with a time given, from that argument only
+    R12 = rep.rule("C19.R12", "force_updated_at / force_created_at write the clock (no time given) or the given time, nothing read from the file",
+                   floor=4, technique="provenance of the written term and event absence on all abstract paths")
+    for cn in ("Entity", "File", "Feature"):
+        for nm, k in (("force_updated_at", "updated_at"), ("force_created_at", "created_at")):
+            fo = ctx.member(cn, nm)
+            if fo is None:
+                continue
+            bad12 = None
+            n12 = 0
+            for p in ctx.paths(fo, cn):
+                ws = [e for e in p.events if ctx.fx.is_write(e) and ctx.fx.key(e) == k]
+                if not ws:
+                    continue
+                n12 += 1
+                given = [v for a, v in p.decisions if a[0] in ("isnone", "truthy") and a[1] == ("param", fo.params[1] if len(fo.params) > 1 else "time")]
+                reads = [e for e in p.events if e.idx < ws[0].idx and e.kind in ("layer", "raw") and not ctx.fx.is_write(e) and
+                         ctx.fx.key(e) in ("updated_at", "created_at")]
+                val = ws[0].args[-1].t if ws[0].args else None
+                has_clock = val is not None and any(x and x[0] in ("call", "ext", "mcall") and "now" in str(x[1]) or
+                                                    (x and x[0] == "call" and "time" in str(x[1]).split(".")[-1:]) for x in subterms(val))
+                from_file = val is not None and any(x and x[0] in ("rd", "lres") for x in subterms(val))
+                if reads or from_file:
+                    bad12 = (p, ws[0], "%s.%s reads the stored %s before stamping / writes a value that depends on it: the stamp is not "
+                             "simply the current (or the given) time" % (cn, nm, ctx.fx.key(reads[0]) if reads else k))
+            rep.check(R12, "%s.%s" % (cn, nm), bad12 is None and n12 > 0, bad12[2] if bad12 else "no stamping path",
+                      site=bad12[1].site if bad12 else fo.file, detail=describe_path(bad12[0]) if bad12 else None)
+
     _r6(M, rep, ctx)
     _r7(M, rep)
 
